@@ -659,42 +659,7 @@ def evaluate(ctx, cases, record=True):
     return judges
 
 
-def drop_header_artifact(ctx):
-    """common.check_assumptions reads the header line 'Axioms:' of Print Assumptions as an axiom called 'Axioms' (known to the
-    lead).  Drop exactly that artefact; every real axiom name is re-checked by axiom_gate below."""
-    ctx.broken[:] = [b for b in ctx.broken if not (b[0].startswith("assumptions:") and b[1].endswith("non-stdlib axiom Axioms"))]
-    for t in ctx.assumptions_seen:
-        ctx.assumptions_seen[t] = [a for a in ctx.assumptions_seen[t] if a != "Axioms"]
-
-
-def axiom_gate(ctx):
-    import re
-    from .common import ALLOWED_AXIOMS
-    theorems = getattr(ctx, "theorems", [])
-    if not theorems:
-        return
-    text = "From PR Require Import Properties.C04.\n" + "".join("Print Assumptions %s.\n" % t for t in theorems)
-    out, ok = ctx.coqc("c04_axioms", text, timeout=300)
-    if not ok:
-        ctx.broken.append(("assumptions:C04", out[-300:]))
-        return
-    names = set()
-    for line in out.splitlines():
-        m = re.match(r"^([A-Za-z_][\w.']*)\s*(:|$)", line)
-        if m and m.group(1) not in ("Axioms", "Closed"):
-            names.add(m.group(1))
-    prim = ("PrimFloat.", "PrimInt63.", "Uint63.", "Sint63.", "FloatOps.")
-    for ax in sorted(names):
-        if ax not in ALLOWED_AXIOMS and not ax.startswith(prim):
-            ctx.broken.append(("assumptions:C04", "a theorem depends on non-stdlib axiom %s" % ax))
-    ctx.notes.append("C04 axioms under Print Assumptions (all theorems): " + ", ".join(
-        sorted(a for a in names if not a.startswith(prim))) + "; plus the kernel's primitive float/int constants in "
-        "C04_legacy_gather_refuted (binary64 witness)")
-
-
 def run(ctx):
-    drop_header_artifact(ctx)
-    axiom_gate(ctx)
     ctx.rule = ("PRNG cases in four streams (regular / radius on a neighbour distance / non-finite data incl. the first valid source and "
                 "NaN under the mask / no valid input or output): source swath 1x1..5x6 or small laea/eqc/stere area, target swath or area "
                 "at 10 centres incl. poles and antimeridian, k in 1..8 (also k > number of sources), gauss sigmas per channel or custom "
